@@ -149,8 +149,7 @@ Definition step (l : lab) (s : cl) : cl :=
       (* SendRequestAsync: TryQueue("main", send, cb) *)
       let s1 := set_cbq s (cbq s ++ [r]) in
       let ok := started s1 && negb (closing s1) && valid && negb (q_is_full s1) in
-      (* the wake-up token is posted without waiting for room (repair F30): one pending token is enough *)
-      if ok then emit (set_reqC (set_q s1 (q s1 ++ [r])) (if 1 <=? reqC s1 then reqC s1 else reqC s1 + 1)) (ERet r 0)
+      if ok then emit (set_reqC (set_q s1 (q s1 ++ [r])) (reqC s1 + 1)) (ERet r 0)
       (* while the dispatcher is closing the request is refused like on a stopped one (repair of F10; before, the
          wake-up token was sent on the closed requestChannel: a panic) *)
       else emit (set_cbq s1 (remove_last (cbq s1))) (ERet r 1)
